@@ -281,8 +281,65 @@ func lookupModel(m map[string]*big.Int, t *Term) *big.Int {
 	return m[t.SMT()]
 }
 
-// RunHarness explores all paths of the harness function under opt, in parallel.
+// Pool is a set of solver workers shared by all harness instances of a run.
+type Pool struct {
+	mu     sync.Mutex
+	cond   *sync.Cond
+	queue  []func(*Solver)
+	closed bool
+	wg     sync.WaitGroup
+}
+
+func NewPool(solvers []*Solver) *Pool {
+	p := &Pool{}
+	p.cond = sync.NewCond(&p.mu)
+	for _, s := range solvers {
+		p.wg.Add(1)
+		go func(s *Solver) {
+			defer p.wg.Done()
+			for {
+				p.mu.Lock()
+				for len(p.queue) == 0 && !p.closed {
+					p.cond.Wait()
+				}
+				if len(p.queue) == 0 && p.closed {
+					p.mu.Unlock()
+					return
+				}
+				job := p.queue[len(p.queue)-1]
+				p.queue = p.queue[:len(p.queue)-1]
+				p.mu.Unlock()
+				job(s)
+			}
+		}(s)
+	}
+	return p
+}
+
+func (p *Pool) Submit(job func(*Solver)) {
+	p.mu.Lock()
+	p.queue = append(p.queue, job)
+	p.mu.Unlock()
+	p.cond.Signal()
+}
+
+func (p *Pool) Close() {
+	p.mu.Lock()
+	p.closed = true
+	p.mu.Unlock()
+	p.cond.Broadcast()
+	p.wg.Wait()
+}
+
+// RunHarness explores all paths of the harness function under opt on its own solvers.
 func (p *Program) RunHarness(opt *Options) *HarnessResult {
+	pool := NewPool(opt.Solvers)
+	defer pool.Close()
+	return p.RunHarnessOn(opt, pool)
+}
+
+// RunHarnessOn explores all paths of the harness function, scheduling paths on a shared pool.
+func (p *Program) RunHarnessOn(opt *Options, pool *Pool) *HarnessResult {
 	fn := p.Pkg.Func(opt.Harness)
 	hr := &HarnessResult{Harness: opt.Harness, Params: opt.Params, EndCounts: map[string]int{}, Covers: map[string]int{},
 		AssertsOK: map[string]int{}, AssertsUnk: map[string]int{}, Known: map[string]int{}, Cuts: map[string]int{}, Funcs: map[string]bool{}}
@@ -299,50 +356,46 @@ func (p *Program) RunHarness(opt *Options) *HarnessResult {
 	if opt.MaxDigits == 0 {
 		opt.MaxDigits = 80
 	}
+	if opt.FeasTimeoutMs == 0 {
+		opt.FeasTimeoutMs = 1500
+	}
 	if opt.MaxPaths == 0 {
-		opt.MaxPaths = 200000
+		opt.MaxPaths = 400000
 	}
 	var mu sync.Mutex
-	cond := sync.NewCond(&mu)
-	queue := [][]Dec{nil}
-	active := 0
-	var wg sync.WaitGroup
-	for _, s := range opt.Solvers {
-		wg.Add(1)
-		go func(s *Solver) {
-			defer wg.Done()
-			for {
-				mu.Lock()
-				for len(queue) == 0 && active > 0 {
-					cond.Wait()
-				}
-				if len(queue) == 0 && active == 0 {
-					mu.Unlock()
-					cond.Broadcast()
-					return
-				}
-				job := queue[len(queue)-1]
-				queue = queue[:len(queue)-1]
-				active++
-				mu.Unlock()
-
-				res, forks := p.runPath(opt, s, fn, job)
-
-				mu.Lock()
-				active--
-				hr.Paths++
-				if hr.Paths+len(queue) < opt.MaxPaths {
-					queue = append(queue, forks...)
-				} else if len(forks) > 0 {
+	done := make(chan struct{})
+	outstanding := 1
+	submitted := 1
+	var run func(prefix []Dec) func(*Solver)
+	run = func(prefix []Dec) func(*Solver) {
+		return func(s *Solver) {
+			res, forks := p.runPath(opt, s, fn, prefix)
+			mu.Lock()
+			hr.Paths++
+			hr.merge(res, opt)
+			var todo [][]Dec
+			for _, f := range forks {
+				if submitted < opt.MaxPaths {
+					submitted++
+					outstanding++
+					todo = append(todo, f)
+				} else if len(hr.Unwinds) < 3 {
 					hr.Unwinds = append(hr.Unwinds, "path budget exceeded")
 				}
-				hr.merge(res, opt)
-				mu.Unlock()
-				cond.Broadcast()
 			}
-		}(s)
+			outstanding--
+			fin := outstanding == 0
+			mu.Unlock()
+			for _, f := range todo {
+				pool.Submit(run(f))
+			}
+			if fin {
+				close(done)
+			}
+		}
 	}
-	wg.Wait()
+	pool.Submit(run(nil))
+	<-done
 	return hr
 }
 
